@@ -282,7 +282,9 @@ def canon(e):
 def same_tree(a, b) -> bool:
     a, b = canon(a), canon(b)
     try:
-        return bool(a == b) and sp.srepr(a) == sp.srepr(b)
+        # ==, srepr AND the non-SymPy attributes of every node (kind and value, described by this harness: `==` on decorated classes
+        # is itself code under verification)
+        return bool(a == b) and sp.srepr(a) == sp.srepr(b) and describe(a) == describe(b)
     except Exception:  # noqa: BLE001
         return False
 
